@@ -181,7 +181,21 @@ def implicit(assemble=None, fmt=None):
     return P
 
 
+def units_ref0(ref=None, offset_units=False):
+    """solver scaling with a nonzero ref0 on a source whose consumer converts units WITHOUT an offset (m->cm): nothing
+    else in the model needs an additive scaling term"""
+    P = Prog('units_ref0')
+    a = P.indep('a', (2,), kind='ivc')
+    kw = dict(ref0=Fr(3)) if ref is None else dict(ref=ref, ref0=Fr(3))
+    c1 = P.comp('c1', '', {'x': In(a, shape=(2,))}, {'y': dict(shape=(2,), units='m', **kw)}, {'y': q22('x')}, 'dense')
+    c2 = P.comp('c2', 'g', {'u': In(c1['y'], [([-1, 0], True)], shape=(2,), units='cm')}, {'z': dict(shape=(2,))}, {'z': q22('u')}, 'sparse')
+    P.ofs, P.wrts = [c2['z'].abs], [a.abs]
+    P.features = ['ref0 on a source + offset-free unit conversion on its consumer', 'negative flat index']
+    return P
+
+
 LIBRARY = {
+    'units_ref0': units_ref0, 'units_ref_ref0': lambda: units_ref0(ref=Fr(-2)),
     'basic': basic, 'basic_scaled': lambda: basic(scaled=True), 'basic_mf_sparse': lambda: basic('mf', 'sparse'),
     'idx_flat': idx_flat, 'idx_nonflat': idx_nonflat, 'auto_units': auto_units, 'promote_chain': promote_chain,
     'matfree': matfree, 'temp_offset': temp_offset, 'branches': branches, 'ratio': ratio,
@@ -206,7 +220,17 @@ IDX_FORMS = [
     ((2, 3), (-1, slice(None)), False),
     ((2, 3), (slice(None, None, -1), slice(1, None)), False),
     ((2, 3), (Ellipsis, 1), False),
+    # index arrays that are not monotonic although their first/last entries are the min/max of a contiguous span
+    ((2, 3), [0, 3, 1, 4, 2, 5], True),       # flat transpose of the 2-D source
+    ((6,), [2, 4, 3, 5], True),               # interior permutation
+    ((6,), [1, 2, 2, 4], True),               # repeated interior entry
+    ((6,), [4, 2, 3, 1], True),               # descending ends, permuted inside
+    # a bare int / a 1-D int array (with a negative entry) into a NON-flat 2-D source selects whole rows
+    ((3, 2), 1, False),
+    ((3, 2), [0, -1], False),
+    ((3, 2), [2, 0], False),
 ]
+QUICK_FORMS = [11, 12, 13, 14, 15, 16, 17]
 IDX_UNITS = {'none': (None, None), 'len': ('m', 'cm'), 'temp': ('degC', 'degF')}
 
 
